@@ -254,10 +254,14 @@ structure Msg where
   /-- the Content-Type header (the per-content-type options look at it) -/
   ctype : String
   fault : Fault
+  /-- everything else about the message — status code, method, URL, header and cookie shapes,
+      body bytes — as an index into the harness's table of message shapes.  Nothing below looks
+      at it (`Props.C17.attachment_independent_of_message_content`). -/
+  content : Nat
 deriving DecidableEq, Repr
 
 /-- a bodiless GET / a `http.NoBody` response -/
-def Msg.plain : Msg := ⟨false, "", .none⟩
+def Msg.plain : Msg := ⟨false, "", .none, 0⟩
 
 /-- The three option families of har.go:363-452, for post data (request) and body (response). -/
 inductive LogOpt where
